@@ -40,6 +40,17 @@ func c38R1(c *engine.Ctx) {
 			continue
 		}
 		engine.Instrs(fn, func(i ssa.Instruction) {
+			// narrowing conversions of a wider counter: the value must fit the target type
+			if cv, isCv := i.(*ssa.Convert); isCv && narrowInt(cv.Type()) {
+				if sb, isB := cv.X.Type().Underlying().(*types.Basic); isB && sb.Info()&types.IsInteger != 0 && !narrowInt(cv.X.Type()) {
+					n++
+					src := iv.At(cv.X, cv)
+					tr := engine.TypeRange(cv.Type())
+					c.Check(src.Lo >= tr.Lo && src.Hi <= tr.Hi, "C38.R1", name+"/convert#"+ordinal(fn, cv), cv.Pos(),
+						"%s(%s) with the operand in %s does not fit %s: a run length of 256 would be written as 0", cv.Type(), engine.Describe(cv.X), src, tr)
+				}
+				return
+			}
 			b, ok := i.(*ssa.BinOp)
 			if !ok || !narrowInt(b.Type()) {
 				return
